@@ -65,6 +65,7 @@ type c07Case struct {
 	Ctx      string    `json:"ctx,omitempty"`  // "" | deadline | cancelled | cancelat
 	CtxAt    int       `json:"at,omitempty"`   // ticks
 	Zero     bool      `json:"zero,omitempty"` // contention mode: every delay is zero
+	Reps     int       `json:"reps,omitempty"` // run the call that many times (fresh bubble each), first failing verdict counts
 }
 
 func (c c07Case) ticks(n int) time.Duration {
@@ -562,6 +563,16 @@ func c07NewRun(c c07Case) *c07Run {
 }
 
 func c07Interp(t *testing.T, c c07Case) (v kit.Verdict) {
+	// Reps: the verdict of a zero-delay case depends on the real schedule (e.g. on
+	// whether the pipeline is over before the caller reaches its select); tiny
+	// cases are therefore run many times.
+	for i := 1; i < c.Reps; i++ {
+		r := c07NewRun(c)
+		if v = r.judge(kit.Bubble(t, r.run)); v.Fail != "" {
+			v.Fail = fmt.Sprintf("repetition %d of %d: %s", i, c.Reps, v.Fail)
+			return v
+		}
+	}
 	r := c07NewRun(c)
 	res := kit.Bubble(t, r.run)
 	return r.judge(res)
@@ -1119,6 +1130,38 @@ func c07Gen(zero bool) func(rt *rapid.T) c07Case {
 		}
 		return c
 	}
+}
+
+// c07GenStorm: tiny zero-delay calls in which something panics, repeated many
+// times: aims at the window in which everything is over before the caller has
+// reached its select (a pending panic must still win over "finished").
+func c07GenStorm(rt *rapid.T) c07Case {
+	c := c07Case{GenPanic: -1, Zero: true, HasW: true}
+	c.Entry = rapid.SampledFrom([]string{"foreach", "mr", "void", "finishvoid", "finish", "chan"}).Draw(rt, "entry")
+	c.W = rapid.IntRange(1, 4).Draw(rt, "w")
+	n := rapid.IntRange(1, 3).Draw(rt, "n")
+	for i := 0; i < n; i++ {
+		c.Items = append(c.Items, c07Item{W: rapid.IntRange(0, 1).Draw(rt, "wr")})
+	}
+	c.Red.Take = -1
+	c.Items[rapid.IntRange(0, n-1).Draw(rt, "pi")].A = "panic"
+	switch rapid.IntRange(0, 5).Draw(rt, "extra") {
+	case 0:
+		if c.Entry == "foreach" || c.Entry == "mr" || c.Entry == "void" {
+			c.GenPanic = rapid.IntRange(0, n).Draw(rt, "gp")
+		}
+	case 1:
+		if c.hasReducer() {
+			c.Red.A = "panic"
+			c.Items = []c07Item{{W: 1}}
+		}
+	case 2:
+		if c.Entry == "mr" || c.Entry == "chan" {
+			c.Red.Late = 1
+		}
+	}
+	c.Reps = rapid.IntRange(100, 300).Draw(rt, "reps")
+	return c
 }
 
 // Debugging aid, inert unless VERIF_C07_LOOP=n and VERIF_REPLAY are set: the
